@@ -909,6 +909,14 @@ def drive_name(env, r, entry, kind, s, cls_name=None):
                 env.ctx.violation(f'C16/names-{kind}-stored-despite-rejection',
                                   'rename rejected the name but the stored name changed',
                                   {'family': 'names', 'kind': kind, 'entry': entry, 'value': s, 'stored': now})
+            # ... and the handle does not answer with the rejected name either
+            env.ctx.count('clause:handle-name-after-rejection')
+            if elem.name != old:
+                env.ctx.violation(f'C16/names-{kind}-handle-reports-rejected-name',
+                                  'rename rejected the name but the element handle now reports it as its name',
+                                  {'family': 'names', 'kind': kind, 'entry': entry, 'value': s, 'handle_name': elem.name, 'stored': now})
+                env.fixture(fresh=True)
+                raise
             # the same name offered again through the same handle (a caller retrying) is refused again
             env.ctx.count('clause:rejected-again-on-retry')
             try:
@@ -922,8 +930,6 @@ def drive_name(env, r, entry, kind, s, cls_name=None):
                                   'a name outside the documented domain is never stored - also when the rejected call is repeated',
                                   {'family': 'names', 'kind': kind, 'entry': entry, 'value': s, 'second_attempt': second, 'stored': now2})
                 env.fixture(fresh=True)
-            else:
-                elem._name = old
             raise
         stored = fx.graph_prop(elem, C.PROP_NAME)
         try:
